@@ -13,6 +13,7 @@ import (
 	"errors"
 	"fmt"
 	"hash/fnv"
+	"math"
 	"math/rand/v2"
 	"net/http"
 	"sort"
@@ -186,8 +187,14 @@ func runCase(run *evid.Run, idx int) {
 			if len(c.PageSize) > 0 {
 				pp = []int{1, 2, 3, 5, 1000}[rng.IntN(5)]
 			}
+			mp := []int{0, 0, pp, pp + 1}[rng.IntN(4)]
+			if rng.IntN(12) == 0 {
+				// "everything at once": page sizes at the edges of the integer types
+				pp = []int{math.MaxInt, math.MaxInt - 1, math.MaxInt32, math.MaxInt32 + 1, 1 << 62, math.MaxInt}[rng.IntN(6)]
+				mp = 0
+			}
 			c.PageSize = append(c.PageSize, pp)
-			c.MaxPage = append(c.MaxPage, []int{0, 0, pp, pp + 1}[rng.IntN(4)])
+			c.MaxPage = append(c.MaxPage, mp)
 			c.OmitLink = append(c.OmitLink, rng.IntN(2) == 0)
 		}
 	}
